@@ -1575,6 +1575,11 @@ impl<'b, R: 'b + Read> ArchiveFailSafeReader<'b, R> {
         let mut unfinished_files = Vec::new();
 
         // Clean-up files still opened
+        // Canonical order (verification builds only): the order in which
+        // unfinished files are closed shapes the output archive
+        #[cfg(mla_verif)]
+        let id_failsafe2id_output: std::collections::BTreeMap<ArchiveFileID, ArchiveFileID> =
+            id_failsafe2id_output.into_iter().collect();
         for (id_failsafe, id_output) in id_failsafe2id_output {
             if id_failsafe_done.contains(&id_failsafe) {
                 // File is OK
